@@ -21,33 +21,34 @@ import contextlib
 def augment_exception_message_and_reraise(exception, message):
   """Reraises `exception`, appending `message` to its string representation."""
 
-  class ExceptionProxy(type(exception)):
-    """Acts as a proxy for an exception with an augmented message."""
-    __module__ = type(exception).__module__
-
-    def __init__(self):
-      pass
-
-    def __getattribute__(self, attr_name):
-      # Public attributes (`args`, `errno`, `value`, `name`, ...) are stored in
-      # the C-level exception struct, where `__getattr__` never gets to see
-      # them: read them from the original exception.
-      if attr_name.startswith('_') or attr_name in ('with_traceback', 'add_note'):
-        return super().__getattribute__(attr_name)
-      return getattr(exception, attr_name)
-
-    def __getattr__(self, attr_name):
-      return getattr(exception, attr_name)
-
-    def __str__(self):
-      return str(exception) + message
-
-  ExceptionProxy.__name__ = type(exception).__name__
-  ExceptionProxy.__qualname__ = type(exception).__qualname__
-
   try:
-    # Some exception types (e.g. exception groups) have required `__new__`
-    # arguments; `__init__` is deliberately not run.
+    # Some exception types can't be subclassed this way (e.g. they require
+    # `__init_subclass__` arguments) or have required `__new__` arguments (e.g.
+    # exception groups); `__init__` is deliberately not run.
+    class ExceptionProxy(type(exception)):
+      """Acts as a proxy for an exception with an augmented message."""
+      __module__ = type(exception).__module__
+
+      def __init__(self):
+        pass
+
+      def __getattribute__(self, attr_name):
+        # Public attributes (`args`, `errno`, `value`, `name`, ...) are stored in
+        # the C-level exception struct, where `__getattr__` never gets to see
+        # them: read them from the original exception.
+        if attr_name.startswith('_') or attr_name in ('with_traceback', 'add_note'):
+          return super().__getattribute__(attr_name)
+        return getattr(exception, attr_name)
+
+      def __getattr__(self, attr_name):
+        return getattr(exception, attr_name)
+
+      def __str__(self):
+        return str(exception) + message
+
+    ExceptionProxy.__name__ = type(exception).__name__
+    ExceptionProxy.__qualname__ = type(exception).__qualname__
+
     proxy = type(exception).__new__(ExceptionProxy, *exception.args)
   except TypeError:
     proxy = None
